@@ -263,7 +263,129 @@ impl Broker {
             ConnectionEvent::TakeStatistics(sender) => {
                 let _ = sender.send(self.statistics.take());
             }
+
+            #[cfg(feature = "verif-hooks")]
+            ConnectionEvent::VerifSnapshot(sender) => {
+                let _ = sender.send(self.verif_snapshot());
+            }
         }
+    }
+
+    #[cfg(feature = "verif-hooks")]
+    fn verif_snapshot(&self) -> crate::verif::VerifSnapshot {
+        use crate::verif::{VerifCall, VerifServiceEntry, VerifSnapshot};
+
+        let mut snapshot = VerifSnapshot {
+            conns: self
+                .conns
+                .iter()
+                .map(|(id, conn)| conn.verif_snapshot(id.verif_id()))
+                .collect(),
+
+            obj_uuids: self
+                .obj_uuids
+                .iter()
+                .map(|(cookie, uuid)| (*cookie.0.as_bytes(), *uuid.0.as_bytes()))
+                .collect(),
+
+            objs: self
+                .objs
+                .iter()
+                .map(|(uuid, obj)| obj.verif_snapshot(*uuid.0.as_bytes()))
+                .collect(),
+
+            svc_uuids: self
+                .svc_uuids
+                .iter()
+                .map(|(cookie, (object_id, uuid, info))| VerifServiceEntry {
+                    cookie: *cookie.0.as_bytes(),
+                    object_uuid: *object_id.uuid.0.as_bytes(),
+                    object_cookie: *object_id.cookie.0.as_bytes(),
+                    service_uuid: *uuid.0.as_bytes(),
+                    version: info.version(),
+                    type_id: info.type_id().map(|id| *id.0.as_bytes()),
+                    subscribe_all: info.subscribe_all(),
+                })
+                .collect(),
+
+            svcs: self
+                .svcs
+                .iter()
+                .map(|((object, service), svc)| {
+                    svc.verif_snapshot(*object.0.as_bytes(), *service.0.as_bytes())
+                })
+                .collect(),
+
+            function_calls: self
+                .function_calls
+                .verif_iter()
+                .map(|(serial, call)| VerifCall {
+                    serial,
+                    caller_serial: call.caller_serial,
+                    caller_conn: call.caller_conn_id.verif_id(),
+                    callee_obj: *call.callee_obj.0.as_bytes(),
+                    callee_svc: *call.callee_svc.0.as_bytes(),
+                    aborted: call.aborted,
+                })
+                .collect(),
+
+            function_calls_next: self.function_calls.verif_next(),
+
+            channels: self
+                .channels
+                .iter()
+                .map(|(cookie, channel)| channel.verif_snapshot(*cookie.0.as_bytes()))
+                .collect(),
+
+            bus_listeners: self
+                .bus_listeners
+                .iter()
+                .map(|(cookie, listener)| listener.verif_snapshot(*cookie.0.as_bytes()))
+                .collect(),
+
+            statistics: None,
+            introspection: None,
+            query_introspection: Vec::new(),
+        };
+
+        snapshot.conns.sort_by_key(|c| c.id);
+        snapshot.obj_uuids.sort();
+        snapshot.objs.sort_by_key(|o| o.uuid);
+        snapshot.svc_uuids.sort_by_key(|s| s.cookie);
+        snapshot.svcs.sort_by_key(|s| (s.object_uuid, s.service_uuid));
+        snapshot.function_calls.sort_by_key(|c| c.serial);
+        snapshot.channels.sort_by_key(|c| c.cookie);
+        snapshot.bus_listeners.sort_by_key(|l| l.cookie);
+
+        #[cfg(feature = "statistics")]
+        {
+            snapshot.statistics = Some(crate::verif::VerifGauges {
+                num_connections: self.statistics.num_connections,
+                num_objects: self.statistics.num_objects,
+                num_services: self.statistics.num_services,
+                num_channels: self.statistics.num_channels,
+                num_bus_listeners: self.statistics.num_bus_listeners,
+                #[cfg(feature = "introspection")]
+                num_introspections: Some(self.statistics.num_introspections),
+                #[cfg(not(feature = "introspection"))]
+                num_introspections: None,
+            });
+        }
+
+        #[cfg(feature = "introspection")]
+        {
+            snapshot.introspection = Some(self.introspection.verif_snapshot());
+
+            snapshot.query_introspection = self
+                .query_introspection
+                .verif_iter()
+                .map(|(serial, type_id)| (serial, *type_id.0.as_bytes()))
+                .collect();
+
+            snapshot.query_introspection.sort();
+        }
+
+        snapshot
     }
 
     fn process_loop_result(&mut self, state: &mut State) {
